@@ -17,7 +17,15 @@ claim("C06", "type-specialised SCCP over go/ssa on all ordered pairs of value ty
       "decides through Value.Less in the forward direction; (R06e) max/min reducers pick by Less in the right direction. Within-kind comparisons "
       "(value-level, e.g. Relation.Less with differing headings) are not decided.", NOTE, "DESIGN.md §3 C06")
 
-for pid in ["C01","C02","C03","C04","C05","C07","C09","C10","C11","C12","C13","C15","C16","C17","C18","C19","C20"]:
+claim("C01", "type-specialised SCCP over every pair of set representations (dispatch totality), symbolic bucket-routing agreement, rows-provenance rule over go/ssa",
+      "Decides structural necessary conditions of exact set algebra across representations: (R01a) no cell of Intersect/Union/Difference/"
+      "SymmetricDifference (13x13 representation pairs), PowerSet, With/Without/Has (13x19) definitely panics, and the panicking "
+      "UnionSet.unionSetSubsetBucket is unreachable; (R01b) element-type bucket == subset bucket of the set type its builder constructs, sets "
+      "route to the generic bucket; (R01c) adding a foreign element to String/Bytes/Array/Dict always goes through toUnionSetWithItem (never "
+      "dropped); (R01d) stored rows of two relations are only combined under explicit column projectors. Member arithmetic inside one "
+      "representation (Count, Where, Has on colliding keys) is value-level and not decided.", NOTE, "DESIGN.md §3 C01")
+
+for pid in ["C02","C03","C04","C05","C07","C09","C10","C11","C12","C13","C15","C16","C17","C18","C19","C20"]:
     na(pid, "check under construction in this session (see DESIGN.md §3); not claimed until its rules are registered")
 na("C14", "agreement of a hand-written array matcher with strings/bytes over all sequences is a relation between runtime values computed by "
           "loops with data-dependent indices; no sound structural clause with teeth exists (DESIGN.md §3 C14)")
